@@ -732,6 +732,12 @@ impl File {
             if self.direct_io {
                 ctx.fs.direct_io_fds.insert(new_fd);
             }
+            if !self.readable {
+                ctx.fs.read_denied_fds.insert(new_fd);
+            }
+            if !self.writable {
+                ctx.fs.write_denied_fds.insert(new_fd);
+            }
 
             Ok(File {
                 fd: new_fd,
@@ -987,6 +993,8 @@ impl Drop for File {
         FsContext::current_if_set(|ctx| {
             ctx.fs.open_handles.swap_remove(&self.fd);
             ctx.fs.direct_io_fds.swap_remove(&self.fd);
+            ctx.fs.read_denied_fds.swap_remove(&self.fd);
+            ctx.fs.write_denied_fds.swap_remove(&self.fd);
         });
     }
 }
@@ -1386,6 +1394,14 @@ impl OpenOptions {
             let direct_io = self.direct_io || (self.custom_flags & O_DIRECT) != 0;
             if direct_io {
                 ctx.fs.direct_io_fds.insert(fd);
+            }
+            // Record the access mode for consumers that only see the raw fd
+            // (io_uring): the File carries it for the shim's own read/write.
+            if !self.read {
+                ctx.fs.read_denied_fds.insert(fd);
+            }
+            if !(self.write || self.append) {
+                ctx.fs.write_denied_fds.insert(fd);
             }
 
             Ok(File::from_parts(
